@@ -247,10 +247,18 @@ type c01Exhaust struct {
 	Held     int `json:"held"`     // requests parked at the backend (of 2048 stream ids)
 	Executes int `json:"executes"` // EXECUTEs of a forgotten statement, one after the other
 	Hammer   int `json:"hammer_clients"`
+	Hosts    int `json:"hosts,omitempty"` // 0 = 1; C08's variant also uses 2 (only host 0 is exhausted)
 }
 
-func c01ExhaustCheck(c c01Exhaust) *evid.Fail {
-	e, err := startEnv(envOpts{Hosts: 1, NumConns: 1, Keyspaces: []string{"ks1"}, HeartBeat: time.Hour, Idle: 2 * time.Hour})
+func c01ExhaustCheck(c c01Exhaust) *evid.Fail { return exhaustRun(c, nil) }
+
+// exhaustRun: onReply (optional) inspects the answer to every EXECUTE (C08's oracle).
+func exhaustRun(c c01Exhaust, onReply func(k int, r *rawcli.Recv, trace string) *evid.Fail) *evid.Fail {
+	nh := c.Hosts
+	if nh == 0 {
+		nh = 1
+	}
+	e, err := startEnv(envOpts{Hosts: nh, NumConns: 1, Keyspaces: []string{"ks1"}, HeartBeat: time.Hour, Idle: 2 * time.Hour})
 	if err != nil {
 		return evid.Failf("harness-env", "%v", err)
 	}
@@ -271,7 +279,8 @@ func c01ExhaustCheck(c c01Exhaust) *evid.Fail {
 	}
 	// park c.Held requests
 	var buf []byte
-	for i := 0; i < c.Held; i++ {
+	total := c.Held * nh // consecutive plans alternate between the hosts, so each host ends up with c.Held parked requests
+	for i := 0; i < total; i++ {
 		tok := nextToken()
 		e.Cluster.Script(tok, []fakecass.Outcome{{Kind: "hold"}})
 		buf = append(buf, c02Query(4, int16(i), tok, "")...)
@@ -280,12 +289,12 @@ func c01ExhaustCheck(c c01Exhaust) *evid.Fail {
 		return evid.Failf("harness-send", "%v", err)
 	}
 	stallReset()
-	for deadline := time.Now().Add(posWait); len(e.Cluster.HeldTokens()) < c.Held; time.Sleep(time.Millisecond) {
+	for deadline := time.Now().Add(posWait); len(e.Cluster.HeldTokens()) < total; time.Sleep(time.Millisecond) {
 		if time.Now().After(deadline) {
 			if stalled(posWait) {
 				return evid.Failf("harness-stall", "stalled")
 			}
-			return evid.Failf("harness-hold", "only %d of %d requests parked", len(e.Cluster.HeldTokens()), c.Held)
+			return evid.Failf("harness-hold", "only %d of %d requests parked", len(e.Cluster.HeldTokens()), total)
 		}
 	}
 	// other clients keep the remaining stream ids busy
@@ -322,13 +331,21 @@ func c01ExhaustCheck(c c01Exhaust) *evid.Fail {
 	}
 	defer func() { close(stop); wg.Wait(); e.Cluster.ReleaseAll() }()
 	for k := 0; k < c.Executes; k++ {
-		e.Cluster.Host(0).Forget()
+		for hi := 0; hi < nh; hi++ {
+			e.Cluster.Host(hi).Forget()
+		}
 		tok := nextToken()
 		s := ex.nextStream()
 		from := ex.c.NumFrames()
 		_ = ex.c.SendMsg(4, s, &message.Execute{QueryId: id, Options: &message.QueryOptions{Consistency: primitive.ConsistencyLevelOne, PositionalValues: []*primitive.Value{primitive.NewValue([]byte(tok))}}}, false)
 		stallReset()
-		if ex.c.WaitStream(s, from, 1, posWait) == nil {
+		r := ex.c.WaitStream(s, from, 1, posWait)
+		if r != nil && onReply != nil {
+			if f := onReply(k, r, traceString(e.Cluster.Attempts(tok))); f != nil {
+				return f
+			}
+		}
+		if r == nil {
 			if stalled(posWait) {
 				return evid.Failf("harness-stall", "stalled")
 			}
